@@ -400,3 +400,142 @@ Proof.
   apply (minimax_monotone_s _ _ w (pairwise_nonneg _ Hwf) (pairwise_nonneg _ Hwf') H2); [|exact Hwin].
   apply pairwise_move_raises; assumption.
 Qed.
+
+(* ------------------------------------------------------------------ w LEAVES a shared rank for a place of its own above the rest of it *)
+Section LEAVE.
+  Variables pre post : rvotes.
+  Variables q p3 : ranked.
+  Variables la lb : list C.
+  Variable x : Z.
+  Variable w : C.
+  Notation b := (q ++ IS (la ++ w :: lb) :: p3).
+  Notation b' := (q ++ IP w :: IS (la ++ lb) :: p3).
+  Notation L1 := (pre ++ (b, x) :: post).
+  Notation L2 := (pre ++ (b', x) :: post).
+
+  Lemma flatten_leave_perm : Permutation (flatten b) (flatten b').
+  Proof.
+    rewrite !flatten_app, !flatten_cons. cbn [members]. apply Permutation_app_head.
+    change (w :: la ++ lb) with ((w :: la ++ lb)). rewrite <- !app_assoc. cbn [app].
+    apply Permutation_sym. apply (Permutation_middle la (lb ++ flatten p3) w).
+  Qed.
+
+  Lemma cnt_leave a : cnt a (flatten b') = cnt a (flatten b).
+  Proof. rewrite !flatten_app, !flatten_cons, !cnt_app. cbn [members]. rewrite !cnt_app, !cnt_cons. cbn [cnt fold_right]. ring. Qed.
+
+  Lemma above_leave a c : above b' a c = above b a c + cnt a [w] * cnt c (la ++ lb).
+  Proof.
+    rewrite !above_app. cbn [above members]. rewrite !flatten_cons. cbn [members]. rewrite !cnt_app, !cnt_cons. cbn [cnt fold_right]. ring.
+  Qed.
+
+  Lemma coef_leave cs a c : Hybrids_proofs.coef cs b' a c = Hybrids_proofs.coef cs b a c + cnt a [w] * cnt c (la ++ lb).
+  Proof. unfold Hybrids_proofs.coef. rewrite above_leave, !cnt_set_diff, !cmem_cnt, !cnt_leave. ring. Qed.
+
+  Lemma leave_cands_of c : In c (cands_of L2) <-> In c (cands_of L1).
+  Proof.
+    rewrite !cands_of_spec. split; intros (r & y & Hin & Hc); apply in_app_iff in Hin.
+    - destruct Hin as [Hin|[Hin|Hin]].
+      + exists r, y. split; [apply in_app_iff; left; exact Hin|exact Hc].
+      + injection Hin as <- <-. exists b, x. split; [apply in_app_iff; right; left; reflexivity|].
+        eapply Permutation_in; [apply Permutation_sym, flatten_leave_perm|exact Hc].
+      + exists r, y. split; [apply in_app_iff; right; right; exact Hin|exact Hc].
+    - destruct Hin as [Hin|[Hin|Hin]].
+      + exists r, y. split; [apply in_app_iff; left; exact Hin|exact Hc].
+      + injection Hin as <- <-. exists b', x. split; [apply in_app_iff; right; left; reflexivity|].
+        eapply Permutation_in; [apply flatten_leave_perm|exact Hc].
+      + exists r, y. split; [apply in_app_iff; right; right; exact Hin|exact Hc].
+  Qed.
+
+  Lemma leave_coef r a c : Hybrids_proofs.coef (cands_of L2) r a c = Hybrids_proofs.coef (cands_of L1) r a c.
+  Proof. apply coef_cs_ext; [apply cands_of_nodup|apply cands_of_nodup|apply leave_cands_of]. Qed.
+
+  (* count(w, c) rises by x for every member c of the rest of the shared rank; nothing else changes *)
+  Theorem pairwise_leave_exact a c :
+    pget0 (pairwise L2) (a, c) = pget0 (pairwise L1) (a, c) + x * (cnt a [w] * cnt c (la ++ lb)).
+  Proof.
+    rewrite !pairwise_get.
+    rewrite (wsum_ext (fun r => Hybrids_proofs.coef (cands_of L2) r a c) (fun r => Hybrids_proofs.coef (cands_of L1) r a c) L2)
+      by (intros; apply leave_coef).
+    rewrite !wsum_app, !wsum_cons, coef_leave. ring.
+  Qed.
+
+  Lemma leave_cands_incl c : In c (candidates (pairwise L1)) -> In c (candidates (pairwise L2)).
+  Proof.
+    rewrite !candidates_pairwise. intros (r & y & Hin & (u & l & Hpos & Hc)). apply in_app_iff in Hin.
+    destruct Hin as [Hin|[Hin|Hin]].
+    - exists r, y. split; [apply in_app_iff; left; exact Hin|]. exists u, l. split; [rewrite leave_coef; exact Hpos|exact Hc].
+    - injection Hin as <- <-. exists b', x. split; [apply in_app_iff; right; left; reflexivity|]. exists u, l. split; [|exact Hc].
+      rewrite leave_coef, coef_leave. pose proof (cnt_nonneg u [w]). pose proof (cnt_nonneg l (la ++ lb)). nia.
+    - exists r, y. split; [apply in_app_iff; right; right; exact Hin|]. exists u, l. split; [rewrite leave_coef; exact Hpos|exact Hc].
+  Qed.
+
+  Hypothesis Hwf : wf_votes L1 = true.
+  Hypothesis Hne : pairwise L1 <> [].
+
+  Lemma leave_nw : ~ In w (la ++ lb).
+  Proof.
+    destruct (proj1 (wf_votes_spec L1) Hwf b x) as [Hn _]; [apply in_app_iff; right; left; reflexivity|].
+    rewrite flatten_app, flatten_cons in Hn. cbn [members] in Hn. apply Hybrids_proofs.nodup_app_r in Hn.
+    apply Hybrids_proofs.nodup_app_l in Hn. apply NoDup_remove_2 in Hn. exact Hn.
+  Qed.
+
+  Lemma wf_leave : wf_votes L2 = true.
+  Proof.
+    revert Hwf. rewrite !wf_votes_spec. intros H r y Hin. apply in_app_iff in Hin. destruct Hin as [Hin|[Hin|Hin]].
+    - apply (H r y). apply in_app_iff. left. exact Hin.
+    - injection Hin as <- <-. destruct (H b x) as [Hn Hy]; [apply in_app_iff; right; left; reflexivity|].
+      split; [|exact Hy]. eapply Permutation_NoDup; [apply flatten_leave_perm|exact Hn].
+    - apply (H r y). apply in_app_iff. right. right. exact Hin.
+  Qed.
+
+  Lemma leave_ne : pairwise L2 <> [].
+  Proof.
+    destruct (pairwise L1) as [|[[u l] n] t] eqn:E; [congruence|].
+    assert (Hu : In u (candidates (pairwise L1))).
+    { apply candidates_spec. exists (u, l), n. rewrite E. split; [left; reflexivity|left; reflexivity]. }
+    apply leave_cands_incl in Hu. intros E2. rewrite E2 in Hu. exact Hu.
+  Qed.
+
+  Theorem pairwise_leave_cands c : In c (candidates (pairwise L2)) <-> In c (candidates (pairwise L1)).
+  Proof.
+    split; [|apply leave_cands_incl]. intros H. apply candidates_pairwise_in, leave_cands_of in H.
+    apply cands_in_pairwise; assumption.
+  Qed.
+
+  Theorem pairwise_leave_raises : raises_s (pairwise L1) (pairwise L2) w.
+  Proof.
+    assert (Hx : 0 <= x).
+    { apply (proj1 (wf_votes_spec L1) Hwf b x). apply in_app_iff. right. left. reflexivity. }
+    split; [exact pairwise_leave_cands|]. split.
+    - intros c. rewrite !pairwise_leave_exact. rewrite (cnt_notin w _ leave_nw).
+      pose proof (cnt_nonneg c (la ++ lb)). pose proof (cnt_nonneg w [w]). split; nia.
+    - intros a c Ha Hc. rewrite pairwise_leave_exact, cnt_single.
+      destruct (ceqb a w) eqn:E; [apply ceqb_eq in E; congruence|]. ring.
+  Qed.
+End LEAVE.
+
+Theorem copeland_ballot_leave pre post q p3 la lb x w so :
+  wf_votes (pre ++ (q ++ IS (la ++ w :: lb) :: p3, x) :: post) = true ->
+  copeland false (pairwise (pre ++ (q ++ IS (la ++ w :: lb) :: p3, x) :: post)) 1 = [Cand w] ->
+  copeland so (pairwise (pre ++ (q ++ IP w :: IS (la ++ lb) :: p3, x) :: post)) 1 = [Cand w].
+Proof.
+  intros Hwf Hwin.
+  assert (Hne : pairwise (pre ++ (q ++ IS (la ++ w :: lb) :: p3, x) :: post) <> []).
+  { intros E. rewrite E in Hwin. vm_compute in Hwin. discriminate Hwin. }
+  pose proof (wf_leave pre post q p3 la lb x w Hwf) as Hwf'.
+  apply (copeland_monotone_s _ _ w (pairwise_nodup _) (pairwise_nodup _) (pairwise_nonneg _ Hwf) (pairwise_nonneg _ Hwf')); [|exact Hwin].
+  apply pairwise_leave_raises; assumption.
+Qed.
+
+Theorem minimax_ballot_leave pre post q p3 la lb x w s :
+  wf_votes (pre ++ (q ++ IS (la ++ w :: lb) :: p3, x) :: post) = true ->
+  minimax s (pairwise (pre ++ (q ++ IS (la ++ w :: lb) :: p3, x) :: post)) 1 = [Cand w] ->
+  minimax s (pairwise (pre ++ (q ++ IP w :: IS (la ++ lb) :: p3, x) :: post)) 1 = [Cand w].
+Proof.
+  intros Hwf Hwin.
+  assert (Hne : pairwise (pre ++ (q ++ IS (la ++ w :: lb) :: p3, x) :: post) <> []).
+  { intros E. rewrite E in Hwin. destruct s; vm_compute in Hwin; discriminate Hwin. }
+  pose proof (wf_leave pre post q p3 la lb x w Hwf) as Hwf'.
+  apply (minimax_monotone_s _ _ w (pairwise_nonneg _ Hwf) (pairwise_nonneg _ Hwf') (pairwise_two _ Hwf Hne)); [|exact Hwin].
+  apply pairwise_leave_raises; assumption.
+Qed.
